@@ -398,6 +398,16 @@ fn registry() -> Vec<Op> {
         // --- wrappers built from secrets
         op!("wrappers.new", true, true, |i| foldc(NonZero::new(i.a).is_some()) ^ foldc(Odd::new(i.b).is_some()) ^ foldc(NonZero::new(i.ba.clone()).is_some()) ^ foldc(Odd::new(i.bb.clone()).is_some())
             ^ foldc(i.a.to_nz().is_some().into()) ^ foldc(i.b.to_odd().is_some().into()) ^ foldc(NonZero::new(Limb(i.a.as_words()[0])).is_some())),
+        // --- decoding of secret byte strings (precisions that are and are not a multiple of the limb size)
+        op!("boxed.from_be_slice(precision 256)", true, true, |i| { let b = i.a.to_be_bytes(); foldb(&BoxedUint::from_be_slice(&b, 256).unwrap()) }),
+        op!("boxed.from_le_slice(precision 256)", true, true, |i| { let b = i.a.to_le_bytes(); foldb(&BoxedUint::from_le_slice(&b, 256).unwrap()) }),
+        op!("boxed.from_be_slice(precision 255)", true, true, |i| { let mut b = i.a.to_be_bytes(); b[0] &= 0x7f; foldb(&BoxedUint::from_be_slice(&b, 255).unwrap()) }),
+        op!("boxed.from_le_slice(precision 255)", true, true, |i| { let mut b = i.a.to_le_bytes(); b[31] &= 0x7f; foldb(&BoxedUint::from_le_slice(&b, 255).unwrap()) }),
+        op!("boxed.from_be_slice(precision 521)", true, true, |i| { let mut b = [0u8; 66]; b[1..33].copy_from_slice(&i.a.to_be_bytes()); b[33..65].copy_from_slice(&i.b.to_be_bytes()); b[65] = i.a.as_words()[0] as u8; b[0] = i.b.as_words()[0] as u8 & 1; foldb(&BoxedUint::from_be_slice(&b, 521).unwrap()) }),
+        op!("boxed.from_le_slice(precision 521)", true, true, |i| { let mut b = [0u8; 66]; b[0..32].copy_from_slice(&i.a.to_le_bytes()); b[32..64].copy_from_slice(&i.b.to_le_bytes()); b[64] = i.a.as_words()[0] as u8; b[65] = i.b.as_words()[0] as u8 & 1; foldb(&BoxedUint::from_le_slice(&b, 521).unwrap()) }),
+        op!("boxed.from_be_slice(short input, precision 2048)", true, true, |i| { let b = i.a.to_be_bytes(); foldb(&BoxedUint::from_be_slice(&b, 2048).unwrap()) }),
+        op!("uint.from_be_slice", true, true, |i| { let b = i.a.to_be_bytes(); fold(&U::from_be_slice(&b)) ^ fold(&U::from_le_slice(&b)) }),
+        op!("uint.from_be_hex(secret digits)", true, true, |i| { let b = i.a.to_be_bytes(); let mut h = [0u8; 64]; for (k, x) in b.iter().enumerate() { let (hi, lo) = ((x >> 4) as i16, (x & 15) as i16); h[2 * k] = (48 + hi + (((9 - hi) >> 15) & 39)) as u8; h[2 * k + 1] = (48 + lo + (((9 - lo) >> 15) & 7)) as u8; }   /* branch-free, table-free: the encoder is part of the traced region */ fold(&U::from_be_hex(core::str::from_utf8(&h).unwrap())) }),
         // --- limb level
         op!("limb.arith", true, true, |i| { let (x, y) = (Limb(i.a.as_words()[0]), Limb(i.b.as_words()[0])); x.wrapping_add(y).0 ^ x.wrapping_sub(y).0 ^ x.wrapping_mul(y).0 ^ x.saturating_add(y).0 ^ x.saturating_mul(y).0 }),
         op!("limb.adc_sbb", true, true, |i| { let (x, y) = (Limb(i.a.as_words()[0]), Limb(i.b.as_words()[0])); let (s, c) = x.adc(y, Limb(i.a.as_words()[1])); let (d, bw) = x.sbb(y, Limb(i.b.as_words()[1])); s.0 ^ c.0 ^ d.0 ^ bw.0 }),
